@@ -225,6 +225,14 @@ fn main() {
     println(last(5), last(1));
 }
 `},
+		{"small:fractional-float-literals", `let RATE = 0.007;
+fn tax(x: float) -> float { x * 0.029 }
+fn main() {
+    let a = 0.057;
+    let b = 0.122;
+    println(RATE, a, b, 0.014, a + b, tax(100.0), a < b, 0.1 + 0.2);
+}
+`},
 		{"small:multiplication-by-zero-and-one", `fn scale(a: int, b: int) -> int { a * b }
 fn main() {
     for i in 0..3 { println(scale(3, i), scale(i, 3), i * 0, 5 * i); }
